@@ -6,12 +6,23 @@ package main
 // become section variables `seenMin`, `seenContains` of the generated file.
 
 import (
+	"bytes"
 	"fmt"
 	"go/ast"
+	"go/printer"
 	"go/token"
 	"path/filepath"
 	"strings"
 )
+
+func c25Print(p *Pkg, n ast.Node) string {
+	if n == nil {
+		return ""
+	}
+	var buf bytes.Buffer
+	printer.Fprint(&buf, p.Fset, n)
+	return buf.String()
+}
 
 func init() {
 	register("c25", func(repo string, args []string) (string, error) {
@@ -46,9 +57,9 @@ func init() {
 					}
 				}
 			case *ast.IfStmt:
-				if c21Print(p, x.Init) == "overflow := acks.seen.numRanges() - maxAckRanges" &&
-					c21Print(p, x.Cond) == "overflow > 0" && len(x.Body.List) == 1 &&
-					c21Print(p, x.Body.List[0]) == "acks.seen.removeranges(0, overflow)" {
+				if c25Print(p, x.Init) == "overflow := acks.seen.numRanges() - maxAckRanges" &&
+					c25Print(p, x.Cond) == "overflow > 0" && len(x.Body.List) == 1 &&
+					c25Print(p, x.Body.List[0]) == "acks.seen.removeranges(0, overflow)" {
 					prune = true
 				}
 			}
